@@ -174,6 +174,12 @@ func soakTrackerLife(secs int) {
 	cfg.Default()
 	cfg.ConcurrentPins = 4
 	cfg.MaxPinQueueSize = 64
+	// round 8b: every other generation has ONE pin worker and queues of capacity 1, so that enqueue's full-queue arm
+	// (ErrFullQueue) is taken while the tracker is in use, during Shutdown and after it (workers gone): model progT
+	small := &stateless.Config{}
+	small.Default()
+	small.ConcurrentPins = 1
+	small.MaxPinQueueSize = 1
 	client, _ := newRPC()
 	me := common.PeerN(0)
 	pinOf := func(i int) *api.Pin {
@@ -185,16 +191,25 @@ func soakTrackerLife(secs int) {
 		return p
 	}
 	var gen uint64
+	var fullQueue int64
 	s.spawn("gen", 1, func(_ int, r *common.Rng) {
 		g := atomic.AddUint64(&gen, 1)
-		t := stateless.New(cfg, me, "p0", getState)
+		gcfg, trackers := cfg, 1
+		if g%2 == 0 {
+			gcfg, trackers = small, 3
+		}
+		t := stateless.New(gcfg, me, "p0", getState)
 		t.SetClient(client) // before any use
 		u := &users{s: s}
-		u.start("track", 1, g, func(w int, r *common.Rng) {
+		u.start("track", trackers, g, func(w int, r *common.Rng) {
+			var err error
 			if r.Intn(3) == 0 {
-				t.Untrack(ctx, cids[r.Intn(nCids)])
+				err = t.Untrack(ctx, cids[r.Intn(nCids)])
 			} else {
-				t.Track(ctx, pinOf(r.Intn(nCids)))
+				err = t.Track(ctx, pinOf(r.Intn(nCids)))
+			}
+			if err == stateless.ErrFullQueue {
+				atomic.AddInt64(&fullQueue, 1)
 			}
 			nap(r, 100, 300)
 		})
@@ -241,6 +256,9 @@ func soakTrackerLife(secs int) {
 		nap(r, 2000, 4000) // moderate CPU use: about 100 generations per second
 	})
 	s.run(secs, nil)
+	if atomic.LoadInt64(&fullQueue) == 0 {
+		fmt.Println("# inconclusive trackerlife: no Track / Untrack met a full queue")
+	}
 	s.finish()
 }
 
@@ -259,7 +277,13 @@ func soakCRDTLife(secs int) {
 	s.spawn("gen", 1, func(_ int, r *common.Rng) {
 		began := time.Now()
 		g := atomic.AddUint64(&gen, 1)
-		node, err := buildCRDT(ctx, "c18life", 2000)
+		// round 8b: every other generation has a batching queue of TWO items: LogPin / LogUnpin take their full-queue arm
+		// (ErrMaxQueueSizeReached) while in use and, once batchWorker has left, on every call after Shutdown (model progQ)
+		queue := 2000
+		if g%2 == 0 {
+			queue = 2
+		}
+		node, err := buildCRDT(ctx, "c18life", queue)
 		if err != nil {
 			fmt.Println("# inconclusive crdtlife:", err)
 			time.Sleep(200 * time.Millisecond)
